@@ -2,7 +2,7 @@ import json,subprocess,re,sys,os,glob
 from concurrent.futures import ThreadPoolExecutor
 def one(d):
     name=os.path.basename(d); cid=name[:3]
-    check={'C16b':'C10','C17c':'C15','C09e':'C07','C11e':'C16','C06g':'C05','C07h':'C09','C16h':'C12','C07j':'C09','C11j':'C16','C17j':'C04','C16k':'C03','C10l':'C01','C06l':'C01','C04l':'C01','C12l':'C14'}.get(name,cid)
+    check={'C16b':'C10','C17c':'C15','C09e':'C07','C11e':'C16','C06g':'C05','C07h':'C09','C16h':'C12','C07j':'C09','C11j':'C16','C17j':'C04','C16k':'C03','C10l':'C01','C06l':'C01','C04l':'C01','C12l':'C14','C01m':'C10','C02m':'C03'}.get(name,cid)
     r=subprocess.run(['/verif/bin/check',check,'quick','--patch',d+'/patch.diff','--tag','meta'+name],capture_output=True,text=True)
     keys=sorted(set(re.findall(r'VIOLATION property=\S+ replay=\S+ key=(\S+)',r.stdout)))
     m=json.load(open(d+'/meta.json'))
